@@ -77,8 +77,9 @@ Definition set_reg (c : ctx_table) (rf : regfile) (n : name) (v : Z) : outcome (
   | Some _, None => Fail        (* the two tables are generated from the same arms *)
   | None, _ => Ret None
   end.
-(* memoize_register; default_memoize_register returns REGISTERS[position(|val| <cmp>(val, reg))]: the
-   first REGISTERS entry the generated comparison accepts (with `==` that is reg itself) *)
+(* memoize_register; default_memoize_register(<table>, reg) returns table[position(|val| <cmp>(val, reg))]: the
+   first entry of the generated table ([ct_memo_tbl]: the REGISTERS the call names) the generated comparison
+   accepts (with `==` that is reg itself) *)
 Definition lower (b : Z) : Z := if (65 <=? b) && (b <=? 90) then b + 32 else b.
 Fixpoint name_eqb_nocase (a b : name) : bool :=
   match a, b with
@@ -90,7 +91,7 @@ Definition memo_eqb (cmp : Z) (r n : name) : bool := if cmp =? 0 then name_eqb r
 Definition memoize (c : ctx_table) (n : name) : option name :=
   match find_arm n (ct_memo c) with
   | Some m => Some m
-  | None => find (fun r => memo_eqb (ct_memo_cmp c) r n) (ct_registers c)
+  | None => find (fun r => memo_eqb (ct_memo_cmp c) r n) (ct_memo_tbl c)
   end.
 
 (* MinidumpContextValidity; Some carries a HashSet: the list is its iteration order *)
@@ -143,19 +144,27 @@ Definition named (c : ctx_table) (rf : regfile) (n : name) : outcome (name * Z) 
   match get_always c rf n with
   | Ret x => Ret (n, x) | Fail => Fail | Panic t => Panic t | OutOfFuel => OutOfFuel
   end.
-(* CpuContext::valid_registers / registers build `CpuRegisters { regs, context }` with
-   regs = Slice(REGISTERS.iter()) under All, Set(valid.iter()) under Some(valid); the iterator's
-   state is the list of names still to come (for a set: in its iteration order).
-   CpuRegisters::next: `let reg = regs.next()?; Some((reg, context.get_register_always(reg)))`. *)
-Definition cpu_iter_init (c : ctx_table) (v : validity) : list name :=
-  match v with VAll => ct_registers c | VSome s => s end.
-Definition cpu_iter_next (c : ctx_table) (rf : regfile) (st : list name) : outcome (option (name * Z) * list name) :=
-  match st with
-  | [] => Ret (None, [])
-  | r :: t => do x <- get_always c rf r; Ret (Some (r, x), t)
+(* CpuContext::valid_registers builds `CpuRegisters { regs, context }` with
+   regs = <ct_iter_all> under All, <ct_iter_some> under Some(valid) (regenerated from the source: a slice of a REGISTERS
+   table, or the set's iterator); registers() = valid_registers(All).  The iterator's state is the CpuRegistersInner
+   variant and the list of names still to come (for a set: in its iteration order).
+   CpuRegisters::next: `let reg = match &mut self.regs { Slice(iter) => iter.<step>, Set(iter) => iter.<step> }?;
+   Some((reg, <ct_next_val>))` where <step> = next() consumes nothing before the name it yields and nth(K) consumes K
+   ([ct_next_slice], [ct_next_set]). *)
+Inductive iter_kind := KSlice | KSet.
+Definition iter_state := (iter_kind * list name)%type.
+Definition src_state (s : names_src) (set : list name) : iter_state :=
+  match s with NList l => (KSlice, l) | NSet => (KSet, set) end.
+Definition cpu_iter_init (c : ctx_table) (v : validity) : iter_state :=
+  match v with VAll => src_state (ct_iter_all c) [] | VSome s => src_state (ct_iter_some c) s end.
+Definition cpu_iter_next (c : ctx_table) (rf : regfile) (st : iter_state) : outcome (option (name * Z) * iter_state) :=
+  let skip := match fst st with KSlice => ct_next_slice c | KSet => ct_next_set c end in
+  match skipn (Z.to_nat skip) (snd st) with
+  | [] => Ret (None, (fst st, []))
+  | r :: t => do x <- get_always c rf r; do y <- aeval rf [(v_ga, x)] (ct_next_val c); Ret (Some (r, y), (fst st, t))
   end.
 (* draining the iterator (what `.collect()` / a `for` loop does) *)
-Fixpoint cpu_iter_collect (fuel : nat) (c : ctx_table) (rf : regfile) (st : list name) : outcome (list (name * Z)) :=
+Fixpoint cpu_iter_collect (fuel : nat) (c : ctx_table) (rf : regfile) (st : iter_state) : outcome (list (name * Z)) :=
   match fuel with
   | O => OutOfFuel
   | S f => do r <- cpu_iter_next c rf st;
@@ -165,16 +174,21 @@ Fixpoint cpu_iter_collect (fuel : nat) (c : ctx_table) (rf : regfile) (st : list
            end
   end.
 Definition cpu_valid_registers (c : ctx_table) (rf : regfile) (v : validity) : outcome (list (name * Z)) :=
-  let st := cpu_iter_init c v in cpu_iter_collect (S (length st)) c rf st.
+  let st := cpu_iter_init c v in cpu_iter_collect (S (length (snd st))) c rf st.
+Definition cpu_registers (c : ctx_table) (rf : regfile) : outcome (list (name * Z)) := cpu_valid_registers c rf VAll.
 (* MinidumpContext::get_stack_pointer / get_instruction_pointer: the arm's body, evaluated *)
 Definition md_stack_pointer (c : ctx_table) (rf : regfile) : outcome Z := aeval rf [] (ct_sp_acc c).
 Definition md_instruction_pointer (c : ctx_table) (rf : regfile) : outcome Z := aeval rf [] (ct_ip_acc c).
+(* std::mem::size_of::<Register>() *)
 Definition register_size (c : ctx_table) : Z := ct_width c / 8.
+(* MinidumpContext::register_size: this variant's arm, over `get(ctx)` = size_of::<T::Register>() *)
+Definition md_register_size (c : ctx_table) : outcome Z := aeval (fun _ _ => 0) [(v_size, register_size c)] (ct_md_size c).
 
 (* MinidumpContext dispatch (this variant's arms, regenerated from the source):
    get_register_always = the arm's expression over the forwarded call;
    get_register = `let valid = <arm>; if valid { Some(self.get_register_always(reg)) } else { None }`;
-   registers = general_purpose_registers().iter().map(|reg| (reg, self.get_register_always(reg)));
+   registers = general_purpose_registers().iter().map(|reg| (reg, <ct_md_regs_val>)), the value an expression over
+     self.get_register_always(reg);
    valid_registers = registers().filter(|(reg, _)| <arm>) *)
 Definition md_get_always (c : ctx_table) (rf : regfile) (n : name) : outcome Z :=
   do x <- get_always c rf n; aeval rf [(v_ga, x)] (ct_md_get c).
@@ -184,7 +198,7 @@ Definition md_get_register (c : ctx_table) (rf : regfile) (n : name) (v : validi
   do ok <- md_is_valid (ct_md_valid c) c rf n v;
   if (ok : bool) then (do x <- md_get_always c rf n; Ret (Some x)) else Ret None.
 Definition md_named (c : ctx_table) (rf : regfile) (n : name) : outcome (name * Z) :=
-  do x <- md_get_always c rf n; Ret (n, x).
+  do x <- md_get_always c rf n; do y <- aeval rf [(v_mga, x)] (ct_md_regs_val c); Ret (n, y).
 Definition md_registers (c : ctx_table) (rf : regfile) : outcome (list (name * Z)) :=
   mapM (md_named c rf) (ct_gpr c).
 Fixpoint filterM {A} (p : A -> outcome bool) (l : list A) : outcome (list A) :=
